@@ -127,7 +127,7 @@ def gen_case(rng, i, wide=False):
         seen.add(nd[1])
         dedup.append(nd)
     tree = dedup
-    return (mtype, tree, sender, target, nxt, raw, NOW), classify_mode(mtype, tree, raw)
+    return (mtype, tree, sender, target, nxt, raw, rng.choice(K.CLOCK_POOL) if rng.random() < 0.4 else NOW), classify_mode(mtype, tree, raw)
 
 
 def size_specs(rng, tier, model=True):
@@ -146,6 +146,9 @@ def size_specs(rng, tier, model=True):
     specs.append({"shape": "fields", "n": rng.choice([1000, 2000]) if full else 700})
     if full:
         specs.append({"shape": "value", "frame_len": 1 << 20, "fill": "x"})
+        if not model:
+            # beyond 1 MiB: implementation-only (the compiled model needs ~1 s per 64 KiB)
+            specs += [{"shape": "value", "frame_len": n, "fill": "z"} for n in K.FRAME_SIZES if n > (1 << 20)]
         if tier == "thorough":
             specs += [{"shape": "value", "frame_len": n + d, "fill": "y"} for n in (65536, 131072, 262144) for d in (-2, 2)]
     for sp in specs:
@@ -208,7 +211,6 @@ def make_conn(sender="SND", target="TGT"):
     c._socket_writer = c.w
     c._socket_reader = object()
     c._connection_state = ConnectionState.ACTIVE
-    c._codec.current_datetime = lambda: NOW
     return c
 
 
@@ -224,7 +226,8 @@ def impl_send(case):
     if mtype == "1":
         c._test_req_id = 1
     try:
-        asyncio.run(c.send_msg(msg))
+        with K.clock(now):
+            asyncio.run(c.send_msg(msg))
     except Exception as e:  # noqa
         return "err %s %s" % (K.exc_kind(e), c._session.next_num_out), c.w.out
     if len(c.w.out) != 1:
@@ -471,7 +474,8 @@ def history(hseed):
                 pass
             await traffic(rng.randint(2, 8))
 
-    asyncio.run(run())
+    with K.clock(NOW):
+        asyncio.run(run())
     return c.w.out
 
 
@@ -491,7 +495,7 @@ def check_history(hseed, failures):
 
 def interleave(iseed):
     """several coroutines send on ONE connection at the same time (application tasks, as the library's own heartbeat
-    task would); drain() yields.  Message sizes 10 B .. 200 KiB.  Returns (writes, number of successful sends)."""
+    task would); drain() yields.  Message sizes 10 B .. 2 MiB + 1.  Returns (writes, number of successful sends)."""
     import random
     from asyncfix import FIXMessage
 
@@ -501,7 +505,7 @@ def interleave(iseed):
     sent = [0]
 
     def msg():
-        size = rng.choice([10, 10, 300, 4096, 65400, 65536, 70000, 131072, 200000]) if rng.random() < 0.5 else rng.randint(1, 200)
+        size = rng.choice([10, 10, 300, 4096, 65400, 65536, 70000, 131072, 200000, 1048500, 1048577, 1572864, 2097153]) if rng.random() < 0.5 else rng.randint(1, 200)
         return FIXMessage(rng.choice(["B", "D", "0"]), {58: rng.choice(["x", "\xe9", "="]) * size, 11: "id%d" % rng.randint(1, 999)})
 
     async def sender(k):
@@ -517,7 +521,8 @@ def interleave(iseed):
     async def run():
         await asyncio.gather(*[sender(rng.randint(1, 4)) for _ in range(rng.randint(2, 4))])
 
-    asyncio.run(run())
+    with K.clock(NOW):
+        asyncio.run(run())
     return c.w.out, sent[0]
 
 
